@@ -178,3 +178,28 @@ class Kernel:
             self.put(nxt, m["entries"][i + 1][0])
             return 0, args
         raise NotImplementedError(f"bpf command {cmd}")
+
+
+def stub_cpus(am, online, possible):
+    """make the arraymap module see `online` online and `possible` possible
+    CPUs (os.cpu_count and /sys/devices/system/cpu/*); returns undo()"""
+    import io
+    saved_cpu = am.__dict__.get("cpu_count")
+    saved_open = am.__dict__.get("open")
+
+    def fake_open(path, *a, **k):
+        if "cpu/possible" in str(path):
+            return io.StringIO(f"0-{possible - 1}\n")
+        if "cpu/online" in str(path):
+            return io.StringIO(f"0-{online - 1}\n")
+        raise FileNotFoundError(path)
+    am.cpu_count = lambda: online
+    am.open = fake_open
+
+    def undo():
+        am.cpu_count = saved_cpu
+        if saved_open is None:
+            am.__dict__.pop("open", None)
+        else:
+            am.open = saved_open
+    return undo
